@@ -41,14 +41,14 @@ theorem getters_canon_aux (c : FastOps) (nv : Nat) (nb : Option Nat) (s : Slots)
     c.getCutoff = s.length ∧
     (∀ p, c.getPth p = slotAt s p) ∧
     (∀ b, c.getCount b = countBond s b) ∧
-    c.getFirstP = firstOcc (occ s) s.length ∧
-    c.getLastP = lastOcc (occ s) s.length ∧
+    c.getFirstP = firstOcc (occAt s) s.length ∧
+    c.getLastP = lastOcc (occAt s) s.length ∧
     (∀ v, v < nv →
       c.getFirstPForVar v = firstRel s v ∧ c.getLastPForVar v = lastRel s v ∧
       (c.doesVarHaveOps v = true ↔ ∃ p op, slotAt s p = some op ∧ v ∈ op.vars)) ∧
     (∀ p nd, c.getNode p = some nd →
-      getPreviousP nd = prevOcc (occ s) p ∧
-      getNextP nd = nextOcc (occ s) s.length p ∧
+      getPreviousP nd = prevOcc (occAt s) p ∧
+      getNextP nd = nextOcc (occAt s) s.length p ∧
       ∀ k v, nd.op.vars[k]? = some v →
         getPreviousPForRelVar k nd = prevRel s v p ∧
         getNextPForRelVar k nd = nextRel s v p) := by
@@ -81,14 +81,14 @@ theorem getters_eq_scan (c : FastOps) (h : Inv c) :
     c.getCutoff = c.abs.length ∧
     (∀ p, c.getPth p = slotAt c.abs p) ∧
     (∀ b, c.getCount b = countBond c.abs b) ∧
-    c.getFirstP = firstOcc (occ c.abs) c.abs.length ∧
-    c.getLastP = lastOcc (occ c.abs) c.abs.length ∧
+    c.getFirstP = firstOcc (occAt c.abs) c.abs.length ∧
+    c.getLastP = lastOcc (occAt c.abs) c.abs.length ∧
     (∀ v, v < c.getNvars →
       c.getFirstPForVar v = firstRel c.abs v ∧ c.getLastPForVar v = lastRel c.abs v ∧
       (c.doesVarHaveOps v = true ↔ ∃ p op, slotAt c.abs p = some op ∧ v ∈ op.vars)) ∧
     (∀ p nd, c.getNode p = some nd →
-      getPreviousP nd = prevOcc (occ c.abs) p ∧
-      getNextP nd = nextOcc (occ c.abs) c.abs.length p ∧
+      getPreviousP nd = prevOcc (occAt c.abs) p ∧
+      getNextP nd = nextOcc (occAt c.abs) c.abs.length p ∧
       ∀ k v, nd.op.vars[k]? = some v →
         getPreviousPForRelVar k nd = prevRel c.abs v p ∧
         getNextPForRelVar k nd = nextRel c.abs v p) :=
@@ -120,7 +120,7 @@ theorem inv_implies_global (c : FastOps) (h : Inv c) : GInv c.nbonds c := by
 (this is where "every op has at least one variable" is needed) -/
 theorem endsOK_of_inv (c : FastOps) (h : Inv c) : EndsOK c := by
   intro hu q
-  cases hocc : occ c.abs q with
+  cases hocc : occAt c.abs q with
   | false => rfl
   | true =>
     exfalso
@@ -131,7 +131,7 @@ theorem endsOK_of_inv (c : FastOps) (h : Inv c) : EndsOK c := by
     | cons v t =>
       have hmem : v ∈ op.vars := by rw [hv]; simp
       have hvn := hlt v hmem
-      have hoccv : occV c.abs v q = true := by unfold occV; rw [hop]; simpa using hmem
+      have hoccv : occVAt c.abs v q = true := by unfold occVAt; rw [hop]; simpa using hmem
       obtain ⟨f, hf⟩ := first_some_of_mem hoccv (slotAt_lt hop)
       obtain ⟨l, hl⟩ := last_some_of_mem hoccv (slotAt_lt hop)
       have hend : c.varEnd v = canonVarEnd c.abs v := by
@@ -161,9 +161,9 @@ with the slots and `last_p` is the scan cursor at `p`, then afterwards the globa
 agrees with the updated slots, the slots are the naive update, and `last_p` is the scan cursor
 at `p + 1`.  Covers the same-vars fast path, removal, insertion and removal+insertion. -/
 theorem mutate_p_global {nb : Option Nat} {c : FastOps} {p : Nat} {new : Option (Option Op)}
-    {a : Cursor} (h : GInv nb c) (hpL : p < c.ops.length) (ha : a.lastP = prevOcc (occ c.abs) p) :
+    {a : Cursor} (h : GInv nb c) (hpL : p < c.ops.length) (ha : a.lastP = prevOcc (occAt c.abs) p) :
     GInv nb (mutatePWith c p new a).1 ∧ (mutatePWith c p new a).1.abs = writeA c.abs p new ∧
-      (mutatePWith c p new a).2.lastP = prevOcc (occ (writeA c.abs p new)) (p + 1) :=
+      (mutatePWith c p new a).2.lastP = prevOcc (occAt (writeA c.abs p new)) (p + 1) :=
   mutatePWith_global h hpL ha
 
 /-- `fill_args_at_p(p, get_empty_args(All))` on a consistent container: `last_p` is the last
@@ -353,7 +353,7 @@ theorem getters_after_history {τ : Type} (nv : Nat) (nb : Option Nat) (ms : Lis
     (hv : ∀ pre (m : Mut τ) post, ms = pre ++ m :: post → m.Valid (pre.foldl applyC (FastOps.new nv nb))) :
     let c := ms.foldl applyC (FastOps.new nv nb)
     let s := ms.foldl (applyA nv nb) []
-    c.getN = countOps s ∧ c.getFirstP = firstOcc (occ s) s.length ∧ c.getLastP = lastOcc (occ s) s.length ∧
+    c.getN = countOps s ∧ c.getFirstP = firstOcc (occAt s) s.length ∧ c.getLastP = lastOcc (occAt s) s.length ∧
       (∀ p, c.getPth p = slotAt s p) := by
   obtain ⟨h1, h2⟩ := refine_seq_new nv nb ms hv
   have g := getters_eq_scan _ h1
